@@ -1253,6 +1253,18 @@ class Fn:
             ai, bi = as_int(*l), as_int(*r)
             self.div_check(f"({bi} == 0)", r[1], ast.unparse(node))
             return (f"((Int.fdiv {par(ai)} {par(bi)}), (Int.fmod {par(ai)} {par(bi)}))", "Tuple:Int,Int")
+        if fname in ("min", "max") and len(args) == 2 and not kw:
+            (a_, ta_), (b_, tb_) = self.expr(args[0], env), self.expr(args[1], env)
+            if is_int_ty(ta_) and is_int_ty(tb_):
+                if is_nat_ty(ta_) and is_nat_ty(tb_):
+                    return (f"({fname} {par(a_)} {par(b_)})", "Nat")
+                return (f"({fname} {par(as_int(a_, ta_))} {par(as_int(b_, tb_))})", "Int")
+        if fname == "abs" and len(args) == 1 and not kw:
+            a_, ta_ = self.expr(args[0], env)
+            if is_nat_ty(ta_):
+                return (a_, ta_)
+            if is_int_ty(ta_):
+                return (f"((Int.natAbs {par(a_)} : Nat) : Int)", "Int")
         if fname == "bytes" and len(args) == 1 and not kw and self.t.get("bytes_elem") == "Char":
             e, t = self.expr(args[0], env)
             if t == "Bytes":
@@ -1267,7 +1279,7 @@ class Fn:
             return (self.cond(args[0], env), "Bool")
         if fname == "len" and len(args) == 1:
             e, t = self.expr(args[0], env)
-            if t.startswith("List:") or t == "Bytes":
+            if t.startswith("List:") or t in ("Bytes", "Str"):
                 return (f"(List.length {par(e)})", "Nat")
         if fname == "next" and len(args) == 2 and isinstance(args[0], ast.GeneratorExp):
             g = args[0]
